@@ -232,9 +232,9 @@ class IterSites(Contract):
 
     @property
     def models(self):
-        return (self.install,)
+        return (self.install_models,)
 
-    def install(self, reg):
+    def install_models(self, reg):
         c = self
         class RulesDict:
             def sym_getitem(s, I, key):
@@ -356,9 +356,9 @@ class ParamFlow(Contract):
 
     @property
     def models(self):
-        return (self.install,)
+        return (self.install_models,)
 
-    def install(self, reg):
+    def install_models(self, reg):
         c = self
         noop = lambda I, a, k: None
         reg.func_(CM, 'print_start_message', noop)
